@@ -141,6 +141,14 @@ func (env *SpecEnv) call(x ECall, hint types.Type) Value {
 		return env.callGo(f.Fn, nil, x.Args)
 	case boundMethod:
 		return env.callGo(f.fn, &f.recv, x.Args)
+	case Closure:
+		var vals []Value
+		for i, a := range x.Args {
+			vals = append(vals, env.evalTerm(a, f.Fn.Params[i].Type()))
+		}
+		w := env.st.clone()
+		w.pc = "true"
+		return ex.inlineCallAt(&Frame{fn: f.Fn, depth: 0, ex: ex}, w, f.Fn, vals, f.Binds)
 	}
 	sfail("cannot call %s", exprString(x.Fn))
 	return nil
